@@ -15,6 +15,7 @@ Wire format
 -/
 import Flax.Base.Proto
 import Flax.Model.ModuleTree
+import Flax.Model.CloneCache
 
 namespace Flax.SProgJson
 open Lean Flax.Proto
@@ -156,6 +157,16 @@ def cfgOfJson (j : Json) : Except String Cfg := do
     | .error _ => pure false
   .ok { style, sep, base, attrPrefix := attr, capture }
 
+def leakOpOfJson (j : Json) : Except String LeakOp := do
+  match (← asStr (← field j "op")) with
+  | "put" => pure (.put (← asStr (← field j "c")) (← asStr (← field j "n")) (.tensor [] [← asInt (← field j "v")]))
+  | "get" => pure (.get (← asStr (← field j "c")) (← asStr (← field j "n")))
+  | "variable" => pure (.var (← asStr (← field j "c")) (← asStr (← field j "n")) (.tensor [] [← asInt (← field j "v")]))
+  | "param" => pure (.param (← asStr (← field j "n")) (← asList asNat (← field j "shape")) (← asInt (← field j "init")))
+  | "push" => pure (.push (← asStr (← field j "name")))
+  | "rewound" => pure .rewound
+  | _ => bad
+
 def errName : Err → String
   | .nameInUse => "nameInUse"
   | .modifyImmutable => "modifyImmutable"
@@ -170,6 +181,7 @@ def errName : Err → String
   | .unsupported => "unsupported"
   | .badSlot => "badSlot"
   | .fuel => "fuel"
+  | .invalidScope => "invalidScope"
 
 /-- an `Outcome` on the wire: the result (`out` + returned variables, or the error name) and the
 observable ghost facts about the final store -/
@@ -198,6 +210,36 @@ def handle : Handler := fun fn args =>
       -- optional 7th argument: width of a top-level array argument `full((w,), x)`
       let xw ← optNat (argAt args 6)
       .ok (outcomeToJson (ModuleTree.apply cfg driverFuel (bindArg xw p) m V rngs x))
+  | "leak" => do
+      -- apply, then a list of operations tried on a scope object that leaked out of the call
+      let cfg ← cfgOfJson (← argAt args 0)
+      let p ← progOfJson (← argAt args 1)
+      let m ← lfOfJson (← argAt args 2)
+      let V ← varsOfJson (← argAt args 3)
+      let rngs ← asList asStr (← argAt args 4)
+      let x ← asInt (← argAt args 5)
+      let xw ← optNat (argAt args 6)
+      let hj ← argAt args 7
+      let h : Handle := ⟨← asList asStr (← field hj "path"), ← asBool (← field hj "invalid")⟩
+      let ops ← asList leakOpOfJson (← argAt args 8)
+      let o := ModuleTree.apply cfg driverFuel (bindArg xw p) m V rngs x
+      let (res, s') := ops.foldl (fun (acc : List Json × Store) op =>
+          match leakedOp h [] op acc.2 with
+          | (.ok (), s2) => (acc.1 ++ [Json.str "ok"], s2)
+          | (.error e, s2) => (acc.1 ++ [Json.str (errName e)], s2)) ([], o.final)
+      .ok (Json.mkObj [("results", .arr res.toArray), ("dirty", .bool s'.dirty),
+                       ("final_vars", .arr (s'.vars.map (fun kv => Json.arr #[pathToJson kv.1, valToJson kv.2])).toArray)])
+  | "unbind" => do
+      -- the variables `bound_module.<path>.unbind()` hands out: args = [vars, path]
+      let V ← varsOfJson (← argAt args 0)
+      let π ← asList asStr (← argAt args 1)
+      .ok (varsToJson (scopeVariables π (Scope.bind .ff V [])))
+  | "clone" => do
+      -- ids at the module-valued positions of each field, in visiting order: args = [fields, fresh]
+      let fields ← asList (asList asNat) (← argAt args 0)
+      let fresh ← asNat (← argAt args 1)
+      .ok (.arr ((Flax.CloneCache.deepClone fields fresh).map
+        (fun f => Json.arr (f.map (fun (n : Nat) => Json.num (JsonNumber.fromNat n))).toArray)).toArray)
   | "abstract" => do
       let V ← varsOfJson (← argAt args 0)
       .ok (varsToJson (Vars.abstract V))
